@@ -265,7 +265,7 @@ func Run(plan *Plan) *RunResult {
 	}
 	w := NewWorld(plan.Sched, stepCap)
 	res.World = w
-	e := &env{w: nil, pool: newSimPool(plan.Pool), calls: map[string]int{}, failAt: map[string]int{}, Fired: map[string]int{}, decompCap: 96 << 20}
+	e := &env{w: nil, pool: newSimPool(plan.Pool), failAt: map[string]int{}, Fired: map[string]int{}, decompCap: 96 << 20}
 	for _, f := range plan.LibFaults {
 		e.failAt[f.Kind] = f.At
 	}
